@@ -2,6 +2,7 @@
 import calendar
 import datetime as dt
 import importlib
+import io
 import logging
 import struct
 import sys
@@ -148,8 +149,54 @@ def run(tier):
             v.violation("c18:differs-from-calendar", "resolved (month, day) is not the calendar's answer", case)
         if len(samples) < 5 and i % 200003 == 7:
             samples.append(case)
-    if n < 500000:
-        v.inconclusive_because("too few cases compared: %d" % n)
+    # ---- the same expressions in the UNTIL column of a Zone line: there the year is known, the compiler resolves the day itself
+    #      (Transformer._create_zones_with_until_day) and must reject a day that falls into another year
+    until_cases = until_kept = until_rejected = 0
+    zones_map, parsed = {}, {}
+    for on in ons:
+        try:
+            pd = tr._parse_on_day_string(on)
+        except BaseException:  # noqa
+            continue
+        if pd == (0, 0):
+            continue
+        for month in (1, 2, 3, 6, 11, 12):
+            for y in range(2000, 2029):       # 28 years: every weekday alignment, leap and non-leap
+                o = oracle(y, month, pd[0], pd[1])
+                if o is None:
+                    continue                  # names a day the month does not have: outside zic's input language
+                zn = "U/%s@%d@%d" % (on, month, y)
+                zones_map[zn] = [{'untilYear': y, 'untilMonth': month, 'untilDayString': on, 'untilDay': None}]
+                parsed[zn] = (y, month, on, o)
+    t2 = tr.Transformer(dict(zones_map), {}, {}, 'extended', 2000, 2050, 60, 60, False)
+    old = sys.stderr
+    sys.stderr = io.StringIO()
+    try:
+        kept_z = t2._create_zones_with_until_day(dict(zones_map))
+    except BaseException as e:  # noqa
+        kept_z = None
+        sys.stderr = old
+        v.violation("c18:until-day-pass-raises:%s" % type(e).__name__, "the UNTIL-day pass raised", {"error": repr(e)[:300]})
+    finally:
+        sys.stderr = old
+    if kept_z is not None:
+        for zn, (y, month, on, o) in parsed.items():
+            until_cases += 1
+            case = {"until_year": y, "until_month": month, "until_day": on, "calendar": o.isoformat()}
+            if zn in kept_z:
+                until_kept += 1
+                e = kept_z[zn][0]
+                case["resolved"] = [e['untilMonth'], e['untilDay']]
+                if o.year != y:
+                    v.violation("c18:until-day-in-another-year-admitted", "a Zone UNTIL day that falls into another year was admitted instead of rejected", case)
+                elif (e['untilMonth'], e['untilDay']) != (o.month, o.day):
+                    v.violation("c18:until-day-differs-from-calendar", "a Zone UNTIL day was resolved to a different (month, day) than the calendar's", case)
+            else:
+                until_rejected += 1
+                if o.year == y:
+                    v.violation("c18:until-day-wrongly-rejected", "a Zone UNTIL day that stays inside its year was rejected", case)
+    if n < 500000 or until_cases < 50000:
+        v.inconclusive_because("too few cases compared: %d rule cases, %d UNTIL cases" % (n, until_cases))
     v.coverage.update({
         "evaluations": n,
         "distinct_nontrivial": len(distinct),
@@ -158,11 +205,14 @@ def run(tier):
                 "every admitted (month, weekday, day) x every year 1873..2126 is resolved by the C++ calcStartDayOfMonth (ASan+UBSan) "
                 "and the Python calc_day_of_month and compared with a datetime-based calendar oracle (expressions naming a day the "
                 "month does not have are outside zic's input language and skipped: %d). distinct = distinct (month, weekday, day) "
-                "expressions. %d (ON, month) combinations were rejected by the compiler." % (skipped_invalid, rejected),
+                "expressions. %d (ON, month) combinations were rejected by the compiler. The same strings in the UNTIL column of a Zone line "
+                "(months 1,2,3,6,11,12 x years 2000..2028) go through the real Transformer._create_zones_with_until_day: kept zones must carry the "
+                "calendar's (month, day), days that fall into another year must be rejected." % (skipped_invalid, rejected),
         "samples": samples or [{"admitted": len(admitted)}],
         "admitted_expressions": len(admitted),
         "rejected_expressions": rejected,
         "cross_year_cases": spill,
+        "until_day_cases": until_cases, "until_day_kept": until_kept, "until_day_rejected": until_rejected,
         "exhaustive": True,
     })
     return v.finish()
